@@ -313,8 +313,14 @@ Inductive jresult :=
 | Crash (key_error : label)                     (* KeyError in handle_event: _execute re-raises, the run aborts *)
 | Running (s : stat) (t : tcases) (written : option tcases).
 
-(* executor._execute: ctx.on_event(event) first, then handler.handle_event(ctx, event) *)
-Definition junit_step (s : stat) (t : tcases) (w : option tcases) (e : event) : jresult :=
+(* executor._execute: ctx.on_event(event) first, then handler.handle_event(ctx, event).
+   strict = true is the handler BEFORE commit 12c14c85 (ctx.statistic.failures[label], KeyError);
+   strict = false is the handler as it is now: failures.get(label, {}) and add_failure always adds a
+   failure element (with the already-reported message when there is no group of its own). *)
+Definition add_failure_groups (g : groups) (c : tcase) : tcase :=
+  {| t_failures := t_failures c ++ [g]; t_skipped := t_skipped c; t_errors := t_errors c |}.
+
+Definition junit_step (strict : bool) (s : stat) (t : tcases) (w : option tcases) (e : event) : jresult :=
   match e with
   | ScenarioFinished r st reason =>
     let s1 := on_scenario_finished s r in
@@ -322,8 +328,9 @@ Definition junit_step (s : stat) (t : tcases) (w : option tcases) (e : event) : 
     match st with
     | StFailure =>
       match dget (r_label r) (failures s1) with
-      | None => Crash (r_label r)
-      | Some g => Running s1 (tupdate (r_label r) (fun c => {| t_failures := t_failures c ++ [g]; t_skipped := t_skipped c; t_errors := t_errors c |}) t1) w
+      | None => if strict then Crash (r_label r)
+                else Running s1 (tupdate (r_label r) (add_failure_groups []) t1) w
+      | Some g => Running s1 (tupdate (r_label r) (add_failure_groups g) t1) w
       end
     | StSkip =>
       if reason then Running s1 (tupdate (r_label r) (fun c => {| t_failures := t_failures c; t_skipped := S (t_skipped c); t_errors := t_errors c |}) t1) w
@@ -337,18 +344,30 @@ Definition junit_step (s : stat) (t : tcases) (w : option tcases) (e : event) : 
   | OtherEvent => Running s t w
   end.
 
-Fixpoint junit_from (s : stat) (t : tcases) (w : option tcases) (h : list event) : jresult :=
+Fixpoint junit_from (strict : bool) (s : stat) (t : tcases) (w : option tcases) (h : list event) : jresult :=
   match h with
   | [] => Running s t w
   | e :: h' =>
-    match junit_step s t w e with
+    match junit_step strict s t w e with
     | Crash l => Crash l
-    | Running s1 t1 w1 => junit_from s1 t1 w1 h'
+    | Running s1 t1 w1 => junit_from strict s1 t1 w1 h'
     end
   end.
-Definition junit_run (h : list event) : jresult := junit_from stat0 [] None h.
-Definition junit_crashes (h : list event) : bool :=
-  match junit_run h with Crash _ => true | Running _ _ _ => false end.
+Definition junit_run (h : list event) : jresult := junit_from false stat0 [] None h.
+(* regression sentinel: the handler before the fix *)
+Definition junit_run_old (h : list event) : jresult := junit_from true stat0 [] None h.
+Definition junit_crashes_old (h : list event) : bool :=
+  match junit_run_old h with Crash _ => true | Running _ _ _ => false end.
+
+(* the test case of label l carries at least one failure element *)
+Definition has_failure (l : label) (t : tcases) : bool :=
+  match dget l t with Some c => match t_failures c with [] => false | _ => true end | None => false end.
+Fixpoint failure_labels (h : list event) : list label :=
+  match h with
+  | [] => []
+  | ScenarioFinished r StFailure _ :: h' => r_label r :: failure_labels h'
+  | _ :: h' => failure_labels h'
+  end.
 
 (* The region, stated without the dictionaries: walking the history with the set of
    failure identities seen so far and the set of labels under which some failure was
@@ -376,23 +395,38 @@ Definition fresh_failure_or_known_label (h : list event) : bool := fresh_or_know
 (* ------------------------------------------------------------------ *)
 (* Part 3: CassetteWriter queue and the writer loops                   *)
 (* ------------------------------------------------------------------ *)
+(* what Python makes of response.encoding when the payload is decoded *)
+Inductive codec :=
+| CodecOk          (* None, or a text codec Python knows, or the payload is empty (no lookup at all) *)
+| CodecUnknown     (* LookupError: unknown name, or not a text encoding (base64, hex, ...) *)
+| CodecRaises.     (* the codec exists and decode raises something else: undefined, idna, punycode *)
+
 (* what matters of an interaction for reaching the file *)
 Record inter := {
   i_id : N;                 (* case id: key of recorder.interactions *)
   i_userinfo : bool;        (* the request URL has a userinfo part *)
   i_response : bool;        (* a response was received (record_response vs record_request) *)
-  i_codec_known : bool      (* response.encoding is None or a codec Python knows, or the payload is empty (no lookup) *)
+  i_codec : codec
 }.
 Inductive fmt := VCR | HAR.
 Record wconf := { w_fmt : fmt; w_sanitize : bool; w_preserve : bool }.
 
-(* writing this entry raises inside the writer thread:
-   HAR 360-363: urlparse(sanitize_url(uri)) on  scheme://[Filtered]@host  -> ValueError (Python >= 3.11.4);
-   VCR 182-183: response.content.decode(encoding, replace) with an unknown codec -> LookupError *)
-Definition entry_raises (w : wconf) (i : inter) : bool :=
+(* writing this entry raises inside the writer thread.
+   BEFORE commits 8fd7266e / ad7dc72b (regression sentinel):
+   HAR: urlparse(sanitize_url(uri)) on  scheme://[Filtered]@host  -> ValueError (Python >= 3.11.4);
+   VCR: response.content.decode(encoding, replace) with any codec problem *)
+Definition entry_raises_old (w : wconf) (i : inter) : bool :=
   match w_fmt w with
   | HAR => w_sanitize w && i_userinfo i
-  | VCR => negb (w_preserve w) && i_response i && negb (i_codec_known i)
+  | VCR => negb (w_preserve w) && i_response i && match i_codec i with CodecOk => false | _ => true end
+  end.
+(* NOW: the HAR writer takes the query string by partition and never parses the URL; the VCR writer
+   falls back to utf8 on LookupError (cassettes.py:183-188); only a codec that raises something else
+   still kills the thread *)
+Definition entry_raises (w : wconf) (i : inter) : bool :=
+  match w_fmt w with
+  | HAR => false
+  | VCR => negb (w_preserve w) && i_response i && match i_codec i with CodecRaises => true | _ => false end
   end.
 
 Inductive qmsg := QInit | QProcess (ints : list inter) | QFinalize.
@@ -411,29 +445,37 @@ Inductive wend := Closed | Died | Waiting.   (* file closed / thread died with a
 Definition truncated_entry (w : wconf) (i : inter) : list (N * bool) :=
   match w_fmt w with VCR => [(i_id i, false)] | HAR => [] end.
 
-Fixpoint write_entries (w : wconf) (ints : list inter) (out : list (N * bool)) : list (N * bool) * bool :=
+Section Writer.
+Variable raises : wconf -> inter -> bool.
+
+Fixpoint write_entries_gen (w : wconf) (ints : list inter) (out : list (N * bool)) : list (N * bool) * bool :=
   match ints with
   | [] => (out, true)
-  | i :: rest => if entry_raises w i then (out ++ truncated_entry w i, false)
-                 else write_entries w rest (out ++ [(i_id i, true)])
+  | i :: rest => if raises w i then (out ++ truncated_entry w i, false)
+                 else write_entries_gen w rest (out ++ [(i_id i, true)])
   end.
 
-Fixpoint writer_loop (w : wconf) (q : list qmsg) (out : list (N * bool)) : list (N * bool) * wend :=
+Fixpoint writer_loop_gen (w : wconf) (q : list qmsg) (out : list (N * bool)) : list (N * bool) * wend :=
   match q with
   | [] => (out, Waiting)
-  | QInit :: q' => writer_loop w q' out             (* VCR writes the preamble, HAR ignores it *)
+  | QInit :: q' => writer_loop_gen w q' out             (* VCR writes the preamble, HAR ignores it *)
   | QProcess ints :: q' =>
-    let '(out1, ok) := write_entries w ints out in
-    if ok then writer_loop w q' out1 else (out1, Died)
+    let '(out1, ok) := write_entries_gen w ints out in
+    if ok then writer_loop_gen w q' out1 else (out1, Died)
   | QFinalize :: _ => (out, Closed)
   end.
+
+Definition written_gen (w : wconf) (h : list cevent) : list (N * bool) * wend := writer_loop_gen w (cassette_queue h) [].
+Definition no_entry_raises_gen (w : wconf) (h : list cevent) : bool :=
+  forallb (fun e => match e with CScenario ints => forallb (fun i => negb (raises w i)) ints | COther => true end) h.
+End Writer.
 
 Definition delivered (h : list cevent) : list N :=
   flat_map (fun e => match e with CScenario ints => map i_id ints | COther => [] end) h.
 Definition complete (ids : list N) : list (N * bool) := map (fun i => (i, true)) ids.
-Definition written (w : wconf) (h : list cevent) : list (N * bool) * wend := writer_loop w (cassette_queue h) [].
-Definition no_entry_raises (w : wconf) (h : list cevent) : bool :=
-  forallb (fun e => match e with CScenario ints => forallb (fun i => negb (entry_raises w i)) ints | COther => true end) h.
+Definition written : wconf -> list cevent -> list (N * bool) * wend := written_gen entry_raises.
+Definition written_old : wconf -> list cevent -> list (N * bool) * wend := written_gen entry_raises_old.
+Definition no_entry_raises : wconf -> list cevent -> bool := no_entry_raises_gen entry_raises.
 
 (* meta is None  (cassettes.py:224-267): the text between the quoted status and recorded_at *)
 Inductive meta_shape := MetaNone | MetaFuzzing | MetaCoverage.
@@ -468,7 +510,7 @@ Inductive payload :=
 | CodecReplace (enc : str) (b : str).      (* bytes.decode(enc, replace) *)
 
 Record xreq := { q_method : str; q_uri : str; q_headers : hdict; q_body : option str }.
-Record xresp := { p_status : N; p_message : str; p_headers : hdict; p_content : str; p_encoding : option str; p_version : str }.
+Record xresp := { p_status : N; p_message : str; p_headers : hdict; p_content : str; p_encoding : option str; p_codec : codec; p_version : str }.
 (* x_checks: None = the case id is not a key of recorder.checks; the bool says failed *)
 Record xchg := { x_id : N; x_req : xreq; x_resp : option xresp; x_checks : option (list (str * bool)) }.
 
@@ -479,12 +521,19 @@ Definition s_utf8 : str := [117;116;102;56].                                    
 Definition s_none : str := [78;111;110;101].                                          (* None *)
 Definition blen (b : str) : N := N.of_nat (length b).
 
+(* uri.partition(#)[0].partition(?)[2]  (cassettes.py:363-364) *)
+Fixpoint before_char (c : N) (s : str) : str :=
+  match s with [] => [] | x :: s' => if x =? c then [] else x :: before_char c s' end.
+Fixpoint after_char (c : N) (s : str) : str :=
+  match s with [] => [] | x :: s' => if x =? c then s' else after_char c s' end.
+Definition query_of (uri : str) : str := after_char 63 (before_char 35 uri).
+
 (* ---- HAR (cassettes.py:358-435) ---- *)
 Record har_resp := {
   hr_status : N; hr_text : str; hr_version : str; hr_headers : list (str * str);
   hr_mime : str; hr_content : option payload; hr_base64 : bool; hr_size : N; hr_redirect : str }.
 Record hentry := {
-  he_method : str; he_url : str; he_version : str; he_headers : list (str * str);
+  he_method : str; he_url : str; he_query : str; he_version : str; he_headers : list (str * str);
   he_post : option (str * payload); he_body_size : N; he_resp : option har_resp }.
 
 (* the locals of har_writer that survive from one loop iteration to the next *)
@@ -517,7 +566,7 @@ Definition har_step (preserve : bool) (v : hvars) (x : xchg) : hvars * hentry :=
             end in
   (* 408-412: headers = request headers *)
   let v3 := {| hv_post := hv_post v2; hv_resp := hv_resp v2; hv_version := hv_version v2; hv_headers := first_values (q_headers (x_req x)) |} in
-  (v3, {| he_method := upper_ascii (q_method (x_req x)); he_url := q_uri (x_req x); he_version := hv_version v3;
+  (v3, {| he_method := upper_ascii (q_method (x_req x)); he_url := q_uri (x_req x); he_query := query_of (q_uri (x_req x)); he_version := hv_version v3;
           he_headers := hv_headers v3; he_post := hv_post v3;
           he_body_size := match q_body (x_req x) with Some b => blen b | None => 0 end;
           he_resp := hv_resp v3 |}).
@@ -530,7 +579,7 @@ Fixpoint har_loop (preserve : bool) (v : hvars) (xs : list xchg) : list hentry :
 
 (* the entry as a function of one interaction only *)
 Definition har_entry (preserve : bool) (x : xchg) : hentry :=
-  {| he_method := upper_ascii (q_method (x_req x)); he_url := q_uri (x_req x);
+  {| he_method := upper_ascii (q_method (x_req x)); he_url := q_uri (x_req x); he_query := query_of (q_uri (x_req x));
      he_version := match x_resp x with Some p => [72;84;84;80;47] ++ p_version p | None => [] end;
      he_headers := first_values (q_headers (x_req x));
      he_post := match q_body (x_req x) with Some b => Some (har_post_of preserve (x_req x) b) | None => None end;
@@ -563,8 +612,9 @@ Definition vcr_resp_body (preserve : bool) (p : xresp) : option (str * payload) 
     | _ => Some (match p_encoding p with Some e => e | None => s_none end, B64 (p_content p))
     end
   else
-    (* 180-189 *)
-    let enc := match p_encoding p with Some [] => s_utf8 | Some e => e | None => s_utf8 end in
+    (* 180-194: encoding or utf8; on LookupError fall back to utf8 (CodecRaises is outside Part 4: the thread dies) *)
+    let enc0 := match p_encoding p with Some [] => s_utf8 | Some e => e | None => s_utf8 end in
+    let enc := match p_codec p with CodecUnknown => s_utf8 | _ => enc0 end in
     Some (enc, CodecReplace enc (p_content p)).
 
 Definition vcr_step (preserve : bool) (v : vvars) (x : xchg) : vvars * ventry :=
